@@ -285,6 +285,8 @@ def read_cgsmiles(pattern):
                 # is how often the branch is expanded.
                 next_characters = ['[', ')', '(', '}'] + list(symbol_to_order.keys())
                 eon_b = _find_next_character(pattern, next_characters, eon_a+1)
+                # with an expansion count of 1 nothing is added and we stay at the anchor
+                base_anchor = prev_node
                 # the outermost loop goes over how often a the branch has to be
                 # added to the existing sequence
                 for idx in range(0,int(pattern[eon_a+2:eon_b])-1):
